@@ -128,11 +128,25 @@ def _pool():
     return [0, 1, -2.5, 3, 'a', '4', '', True, False, sh.EMPTY, E['#N/A'], E['#DIV/0!'], 7.25]
 
 
-def _mkvals(shape, rng_seed):
+def _special_pool(name):
+    # kernels whose results leave the usual number ranges: exact integers beyond 64 bits (FACT(25)) and beyond the float range
+    # (FACT(171)), text in a foreign base - the element-wise rule must survive whatever happens to one element
+    from formulas.tokens.operand import Error
+    E = Error.errors
+    return {'FACT': [3, 20, 21, 25, 170, 171, 200, -1, 'a', True, E['#N/A'], 0, 2.9],
+            'DECIMAL': ['10', 'ZZ', 'Z' * 300, 'z1', '', 7, True, E['#DIV/0!'], '-1', 'G']}.get(name)
+
+
+def _mkvals(shape, rng_seed, name=None, position=0):
     import random
     import numpy as np
     r = random.Random(rng_seed)
     P = _pool()
+    sp = _special_pool(name)
+    if sp is not None and position == 0:
+        P = sp
+    elif name == 'DECIMAL':
+        P = [36, 16, 2, 10]
     return np.asarray([[r.choice(P) for _ in range(shape[1])] for _ in range(shape[0])], object)
 
 
@@ -160,7 +174,7 @@ def _check_lift(case):
     out_shape = _bshape(shapes)
     if out_shape is None:
         return None
-    arrays = [_mkvals(s, seed + 31 * k) for k, s in enumerate(shapes)]
+    arrays = [_mkvals(s, seed + 31 * k, name, k) for k, s in enumerate(shapes)]
     args = [a if a.shape != (1, 1) or (seed + k) % 2 else a[0, 0] for k, a in enumerate(arrays)]
     try:
         got = np.asarray(_call(name, args), object)
@@ -180,8 +194,8 @@ def _check_lift(case):
     return None
 
 
-ELEMENTWISE = ['+', '-', '*', '/', '&', '=', '<', 'ABS', 'ROUND', 'IF', 'CONCATENATE', 'LEFT', 'MOD', 'POWER', 'DATE', 'DAY', 'WEEKDAY']
-ARITY = {'DATE': (3,), 'DAY': (1,), 'WEEKDAY': (1, 2), 'ABS': (1,), 'ROUND': (2,), 'IF': (3,), 'CONCATENATE': (1, 2, 3, 5, 31, 32, 33, 40), 'LEFT': (2,), 'MOD': (2,), 'POWER': (2,)}
+ELEMENTWISE = ['+', '-', '*', '/', '&', '=', '<', 'ABS', 'ROUND', 'IF', 'CONCATENATE', 'LEFT', 'MOD', 'POWER', 'DATE', 'DAY', 'WEEKDAY', 'FACT', 'DECIMAL']
+ARITY = {'FACT': (1,), 'DECIMAL': (2,), 'DATE': (3,), 'DAY': (1,), 'WEEKDAY': (1, 2), 'ABS': (1,), 'ROUND': (2,), 'IF': (3,), 'CONCATENATE': (1, 2, 3, 5, 31, 32, 33, 40), 'LEFT': (2,), 'MOD': (2,), 'POWER': (2,)}
 
 
 def _lift_cases(tier, rng):
@@ -206,7 +220,7 @@ def _lift_cases(tier, rng):
 def _has_plain_text(case):
     name, shapes, seed = case
     for k, sh_ in enumerate(shapes):
-        for v in _mkvals(sh_, seed + 31 * k).ravel().tolist():
+        for v in _mkvals(sh_, seed + 31 * k, name, k).ravel().tolist():
             if isinstance(v, str) and type(v) is str:
                 try:
                     float(v)
@@ -230,7 +244,7 @@ BOUNDED = [
           '(Array.reshape, Ranges.set_value with an Array, a cell formula stored into a range)',
           classify=_classify_fit, exhaustive=True, max_report=400),
     Stage('B2:lifting-the-scalar-rule-element-wise', 'C05', _lift_cases, _check_lift,
-          '17 operators / element-wise functions (incl. kernels that signal errors by exception); all broadcastable shape combinations of 8 shapes for arity <= 3; CONCATENATE with '
+          '19 operators / element-wise functions (incl. kernels that signal errors by exception, and FACT / DECIMAL whose exact integer results leave the 64-bit and the float range); all broadcastable shape combinations of 8 shapes for arity <= 3; CONCATENATE with '
           '1..40 arguments (both sides of the 32-argument split); element values of every kind; compared position by position with the '
           'same function applied to the broadcast scalars', classify=_classify_lift, max_report=400),
 ]
